@@ -113,15 +113,18 @@ def ensure_prebuilt(files):
     lock = _lock()
     try:
         rebuilt = False
+        newest = 0.0  # newest .vo among the earlier files of the list (possible dependencies)
         for rel in files:
             v = os.path.join(COQ, rel)
             vo = v[:-2] + ".vo"
-            stale = rebuilt or not os.path.exists(vo) or os.path.getmtime(vo) < os.path.getmtime(v)
+            stale = (rebuilt or not os.path.exists(vo) or os.path.getmtime(vo) < os.path.getmtime(v)
+                     or os.path.getmtime(vo) < newest)
             if stale:
                 rc, so, se, cmd = coqc(rel, timeout=3000)
                 if rc != 0:
                     return False, "prebuilt file %s does not compile:\n%s" % (rel, se[-3000:])
                 rebuilt = True
+            newest = max(newest, os.path.getmtime(vo))
         return True, ""
     finally:
         lock.close()
